@@ -12,8 +12,10 @@ Open Scope list_scope.
 Notation g := spec_grammar.
 
 (* words that start another kind of declaration *)
-Definition decl_keywords : list chars :=
-  map chars_of ["virtual"; "class"; "typedef"; "enum"; "namespace"; "template"; "pair"]%string.
+Definition other_keywords : list chars :=
+  map chars_of ["virtual"; "class"; "typedef"; "enum"; "template"; "pair"]%string.
+Definition knamespace : chars := chars_of "namespace".
+Definition decl_keywords : list chars := knamespace :: other_keywords.
 
 Ltac noblank := vm_compute; intuition discriminate.
 (* unfold a rule reference to its body in the grammar *)
@@ -25,9 +27,9 @@ Section Alternatives.
   Variables (p : bool) (h r : chars).
   Hypothesis Hw : word h.
   Hypothesis B : boundary r.
-  Hypothesis Hk : ~ In h decl_keywords.
+  Hypothesis Hk : ~ In h other_keywords.
 
-  Lemma kw_fails : forall f (k : string), ~ In " "%char (chars_of k) -> (In (chars_of k) decl_keywords \/ ~ word (chars_of k)) ->
+  Lemma kw_fails : forall f (k : string), ~ In " "%char (chars_of k) -> (In (chars_of k) other_keywords \/ ~ word (chars_of k)) ->
     interp g (S f) (GTerm (TKw k)) {| pk := p; rest := sp h r |} = Fail.
   Proof.
     intros f k Hb Hin. apply (kw_word_fail f p k h r Hw B (safe_nospace _ _ Hb)).
@@ -94,27 +96,55 @@ Section Alternatives.
     rewrite (kw_word_fail _ p "enum struct" h r Hw B (safe_enum "struct") (D "struct")). reflexivity.
   Qed.
 
-  Lemma namespace_fails : forall f, interp g (7 + f) (GRef "Namespace") {| pk := p; rest := sp h r |} = Fail.
+  Lemma namespace_fails : forall f, h <> knamespace ->
+    interp g (7 + f) (GRef "Namespace") {| pk := p; rest := sp h r |} = Fail.
   Proof.
-    intros f. cbn [Nat.add]. rule "Namespace"%string.
+    intros f Hn. cbn [Nat.add]. rule "Namespace"%string.
     rewrite i_and, seq_cons, i_and, seq_cons, i_and, seq_cons, i_and, seq_cons.
-    rewrite (kw_fails _ "namespace") by (try noblank; left; vm_compute; tauto). reflexivity.
+    assert (Nb : ~ In " "%char (chars_of "namespace")) by noblank.
+    rewrite (kw_word_fail _ p "namespace" h r Hw B (safe_nospace _ _ Nb)); [reflexivity|].
+    intros X. apply Hn. symmetry. exact X.
   Qed.
 End Alternatives.
 
-(* ---- a property declaration `T name ;` is not a prefix of a function declaration `T name ( ...` ---- *)
-Lemma variable_fails : forall F0 toks v n X, parses F0 toks v -> is_ident n = true ->
-  forall f p, F0 <= f -> interp g (8 + f) (GRef "Variable") {| pk := p; rest := render toks (sp n (sp lparen X)) |} = Fail.
+(* ---- a property declaration `T name ;` / `T name = ...;` is not a prefix of `T name c...` for another character c ---- *)
+Lemma variable_fails : forall F0 toks v n c t X, parses F0 toks v -> is_ident n = true ->
+  solid c = true -> ceq "="%char c = false -> ceq ";"%char c = false ->
+  forall f p, F0 <= f -> interp g (8 + f) (GRef "Variable") {| pk := p; rest := render toks (sp n (sp (c :: t) X)) |} = Fail.
 Proof.
-  intros F0 toks v n X Hp Hn f p Hf. cbn [Nat.add]. rule "Variable"%string.
+  intros F0 toks v n c t X Hp Hn Hc He Hs f p Hf. cbn [Nat.add]. rule "Variable"%string.
   rewrite i_and, seq_cons, i_and, seq_cons, i_and, seq_cons, i_name.
-  destruct (Hp (3 + f) p (sp n (sp lparen X)) (follow_ident n _ Hn) ltac:(lia)) as [p1 E1]. cbn [Nat.add] in E1. unfold TY in E1.
+  destruct (Hp (3 + f) p (sp n (sp (c :: t) X)) (follow_ident n _ Hn) ltac:(lia)) as [p1 E1]. cbn [Nat.add] in E1. unfold TY in E1.
   rewrite E1. cbn [map add_name fst snd app]. rewrite ?seq_cons, i_name.
-  assert (Bl : boundary (sp lparen X)) by (right; eexists; reflexivity).
-  destruct (IDENT_ok (1 + f) p1 n (sp lparen X) Hn Bl) as [p2 E2]. cbn [Nat.add] in E2. unfold IDENT in E2. rewrite E2.
+  assert (Bl : boundary (sp (c :: t) X)) by (right; eexists; reflexivity).
+  destruct (IDENT_ok (1 + f) p1 n (sp (c :: t) X) Hn Bl) as [p2 E2]. cbn [Nat.add] in E2. unfold IDENT in E2. rewrite E2.
   cbn [map add_name fst snd app]. rewrite ?seq_nil. cbn [app]. rewrite ?seq_cons, i_name, i_opt, i_and, ?seq_cons, i_sup.
-  rewrite (lit1_other _ p2 "="%char "("%char [] X eq_refl eq_refl). cbn [map app]. rewrite ?seq_nil. cbn [app].
-  rewrite ?seq_cons, i_sup. rewrite (lit1_other _ p2 ";"%char "("%char [] X eq_refl eq_refl). reflexivity.
+  rewrite (lit1_other _ p2 "="%char c t X Hc He). cbn [map app]. rewrite ?seq_nil. cbn [app].
+  rewrite ?seq_cons, i_sup. rewrite (lit1_other _ p2 ";"%char c t X Hc Hs). reflexivity.
+Qed.
+
+(* ---- a function declaration needs `(` after `T name` ---- *)
+Definition wf_head_toks (toks : list chars) : Prop := exists h rest, toks = h :: rest /\ word h /\ h <> kpair /\ h <> ktemplate.
+Lemma function_fails : forall F0 toks v n c t X, parses F0 toks v -> wf_head_toks toks -> is_ident n = true ->
+  solid c = true -> ceq "("%char c = false ->
+  forall f p, F0 <= f -> interp g (20 + f) (GRef "GlobalFunction") {| pk := p; rest := render toks (sp n (sp (c :: t) X)) |} = Fail.
+Proof.
+  intros F0 toks v n c t X Hp [h [rest' [Eh [Hwh [Hkp Hkt]]]]] Hn Hc Hl f p Hf. cbn [Nat.add].
+  rewrite (i_ref _ _ "GlobalFunction" FN_BODY lookup_GlobalFunction). unfold FN_BODY.
+  rewrite i_and, seq_cons, i_and, seq_cons, i_and, seq_cons, i_and, seq_cons, i_and, seq_cons, i_and, seq_cons.
+  set (NAME := sp n (sp (c :: t) X)).
+  rewrite Eh. change (render (h :: rest') NAME) with (sp h (render rest' NAME)).
+  assert (Fn : follow NAME) by (apply follow_ident; exact Hn).
+  assert (B : boundary (render rest' NAME)) by (apply render_boundary, follow_boundary; exact Fn).
+  rewrite (template_opt_none _ p h _ Hwh B Hkt). cbn [app]. rewrite seq_cons, i_name.
+  change (sp h (render rest' NAME)) with (render (h :: rest') NAME). rewrite <- Eh.
+  assert (HH : head_word toks) by (exists h, rest'; split; [exact Eh | split; [exact Hwh | exact Hkp]]).
+  destruct (rt_single_ok F0 toks v Hp HH (S f) p NAME Fn ltac:(lia)) as [p1 E1].
+  cbn [Nat.add] in E1. rewrite E1. cbn [map add_name fst snd app]. rewrite seq_nil. cbn [app]. rewrite seq_cons, i_name.
+  assert (Bl : boundary (sp (c :: t) X)) by (right; eexists; reflexivity).
+  unfold NAME. destruct (IDENT_ok (Sn 11 f) p1 n (sp (c :: t) X) Hn Bl) as [p2 E2]. cbn [Sn] in E2. rewrite E2.
+  cbn [map add_name fst snd]. rewrite seq_nil. cbn [app]. rewrite seq_cons, i_sup.
+  rewrite (lit1_other _ p2 "("%char c t X Hc Hl). reflexivity.
 Qed.
 
 (* ---- the alternation of the module content ---- *)
@@ -149,10 +179,12 @@ Proof.
   intros t [h [rest' [E [Hw Hk]]]]. exists h, rest'. split; [exact E|]. split; [exact Hw|].
   split; intros X; apply Hk; rewrite X; vm_compute; tauto.
 Qed.
+Lemma not_other : forall h, ~ In h decl_keywords -> ~ In h other_keywords /\ h <> knamespace.
+Proof. intros h H. split; [intros X; apply H; right; exact X | intros X; apply H; left; symmetry; exact X]. Qed.
 
 Lemma content_step : forall x, wf_fn x -> forall p R f, fuel_fn x + 25 <= f ->
   exists v p', interp g f OR7 {| pk := p; rest := render (toks_of x) R |} = Match [([], v)] {| pk := p'; rest := R |}
-               /\ b_decl depth_fuel v = Ok (decl_of x).
+               /\ forall k, b_decl (S k) v = Ok (decl_of x).
 Proof.
   intros [[t name] args] [Hw [Hd [Hh [Hn Ha]]]] p R f Hf. cbn [toks_of fuel_fn decl_of] in *.
   assert (X : exists y, f = Sn 7 (18 + y) /\ fn_fuel t args <= y) by (exists (f - 25); cbn [Sn]; lia).
@@ -160,20 +192,20 @@ Proof.
   destruct (function_roundtrip t name args Hw Hd (head_ok_wf_head t Hh) Hn Ha p R (Sn 3 (18 + y)) ltac:(cbn [Sn]; lia))
     as [v [p' [E B]]]. cbn [Sn] in E.
   exists v, p'. split; [|exact B].
-  destruct Hh as [h [rest' [Eh [Hwh Hk]]]].
+  destruct Hh as [h [rest' [Eh [Hwh Hk0]]]]. destruct (not_other h Hk0) as [Hk Hns].
   set (st := {| pk := p; rest := render (fn_toks t name args) R |}) in *.
   assert (Est : st = {| pk := p; rest := sp h (render (rest' ++ [chars_of name] ++ [lparen] ++ args_toks args ++ [rparen] ++ [semi]) R) |}).
   { unfold st, fn_toks. rewrite Eh. reflexivity. }
   assert (Bd : boundary (render (rest' ++ [chars_of name] ++ [lparen] ++ args_toks args ++ [rparen] ++ [semi]) R)).
   { rewrite render_app. apply render_boundary. right. eexists. reflexivity. }
   unfold OR7. apply or2_l.
-  2:{ rewrite Est. apply (namespace_fails p h _ Hwh Bd Hk (Sn 6 (11 + y))). }
+  2:{ rewrite Est. apply (namespace_fails p h _ Hwh Bd (Sn 6 (11 + y)) Hns). }
   unfold OR6. apply or2_l.
   2:{ unfold st, fn_toks. rewrite render_app.
       change (render ([chars_of name] ++ [lparen] ++ args_toks args ++ [rparen] ++ [semi]) R)
         with (sp (chars_of name) (sp lparen (render (args_toks args ++ [rparen] ++ [semi]) R))).
       assert (HP : parses (fuel_of t) (ty_toks t) (ty_value t)) by (apply (ty_parses (S (depth t))); [apply Nat.lt_succ_diag_r | exact Hw]).
-      apply (variable_fails (fuel_of t) (ty_toks t) (ty_value t) (chars_of name) _ HP Hn (Sn 5 (10 + y)) p).
+      apply (variable_fails (fuel_of t) (ty_toks t) (ty_value t) (chars_of name) "("%char [] _ HP Hn eq_refl eq_refl eq_refl (Sn 5 (10 + y)) p).
       unfold fn_fuel in Hy. cbn [Sn]. lia. }
   unfold OR5. apply or2_l.
   2:{ rewrite Est. apply (enum_fails p h _ Hwh Bd Hk (Sn 4 (8 + y))). }
@@ -184,50 +216,277 @@ Proof.
   rewrite Est. apply (fwd_fails p h _ Hwh Bd Hk (9 + y)).
 Qed.
 
-(* ---- the repetition: one declaration per round, stopping at the end of the text ---- *)
+(* ---- where a run of declarations stops: at the end of the text, or at the closing brace of a namespace ---- *)
+Definition lbrace : chars := ["{"%char].
+Definition rbrace : chars := ["}"%char].
+
+Lemma ty_fails_at_rbrace : forall f p X, interp g (12 + f) TY {| pk := p; rest := sp rbrace X |} = Fail.
+Proof.
+  intros f p X. cbn [Nat.add]. unfold TY. rewrite i_or. cbn [alt_longest].
+  rewrite (i_ref _ _ "Type" TYPE_BODY lookup_Type). unfold TYPE_BODY. rewrite i_and, seq_cons, i_and, seq_cons.
+  unfold CONST_OPT. rewrite i_opt, i_name. unfold rbrace.
+  rewrite (kw_fail_first _ p "const" "}"%char [] X eq_refl eq_refl). rewrite seq_cons.
+  unfold CHOICE. rewrite i_first. cbn [alt_first]. rewrite i_name, (i_ref _ _ "BasicType" BASIC_BODY lookup_BasicType).
+  unfold BASIC_BODY. rewrite i_or. cbn [alt_longest].
+  rewrite !(kw_fail_first _ p _ "}"%char [] X eq_refl) by reflexivity.
+  rewrite i_name, (i_ref _ _ "CustomType" TN_BODY lookup_CustomType). unfold TN_BODY. rewrite i_and, seq_cons.
+  rewrite (IDENT_fail _ p "}"%char [] X eq_refl eq_refl eq_refl).
+  rewrite (i_ref _ _ "TemplatedType" TT_BODY lookup_TemplatedType). unfold TT_BODY.
+  rewrite i_and, seq_cons, i_and, seq_cons, i_and, seq_cons. unfold CONST_OPT. rewrite i_opt, i_name.
+  rewrite (kw_fail_first _ p "const" "}"%char [] X eq_refl eq_refl). rewrite seq_cons.
+  rewrite i_name, (i_ref _ _ "Typename" TN_BODY lookup_Typename). unfold TN_BODY. rewrite i_and, seq_cons.
+  rewrite (IDENT_fail _ p "}"%char [] X eq_refl eq_refl eq_refl). reflexivity.
+Qed.
+
+Section AtBrace.
+  Variables (p : bool) (X : chars).
+  Let st : pst := {| pk := p; rest := sp rbrace X |}.
+
+  Lemma kwb : forall f (k : string), match chars_of k with d :: _ => ceq d "}"%char = false | [] => False end ->
+    interp g (S f) (GTerm (TKw k)) st = Fail.
+  Proof. intros f k H. apply (kw_fail_first f p k "}"%char [] X eq_refl H). Qed.
+
+  Lemma fwd_b : forall f, interp g (23 + f) (GRef "ForwardDeclaration") st = Fail.
+  Proof.
+    intros f. cbn [Nat.add]. rule "ForwardDeclaration"%string.
+    rewrite i_and, seq_cons, i_and, seq_cons, i_and, seq_cons, i_and, seq_cons, i_opt, i_name.
+    rewrite (kwb _ "virtual" eq_refl). rewrite seq_cons. rewrite (kwb _ "class" eq_refl). reflexivity.
+  Qed.
+  Lemma include_b : forall f, interp g (23 + f) (GRef "Include") st = Fail.
+  Proof.
+    intros f. cbn [Nat.add]. rule "Include"%string. rewrite i_and, seq_cons, i_and, seq_cons, i_and, seq_cons.
+    rewrite (kwb _ "#include" eq_refl). reflexivity.
+  Qed.
+  Lemma template_opt_b : forall f, interp g (7 + f) TEMPLATE_OPT st = Match [] st.
+  Proof.
+    intros f. cbn [Nat.add]. unfold TEMPLATE_OPT. rewrite i_opt, i_name, (i_ref _ _ "Template" TEMPLATE_BODY lookup_Template).
+    unfold TEMPLATE_BODY. rewrite i_and, seq_cons, i_and, seq_cons, i_and, seq_cons. rewrite (kwb _ "template" eq_refl). reflexivity.
+  Qed.
+  Lemma class_b : forall f, interp g (24 + f) (GRef "Class") st = Fail.
+  Proof.
+    intros f. cbn [Nat.add]. rule "Class"%string.
+    rewrite i_and, seq_cons, i_and, seq_cons, i_and, seq_cons, i_and, seq_cons, i_and, seq_cons, i_and, seq_cons, i_and, seq_cons,
+            i_and, seq_cons.
+    pose proof (template_opt_b (8 + f)) as T. unfold TEMPLATE_OPT in T. cbn [Nat.add] in T. rewrite T. clear T.
+    rewrite seq_cons, i_opt, i_name. rewrite (kwb _ "virtual" eq_refl).
+    cbn [app]. rewrite ?seq_nil. cbn [app]. rewrite ?seq_cons. rewrite (kwb _ "class" eq_refl). reflexivity.
+  Qed.
+  Lemma typedef_b : forall f, interp g (25 + f) (GRef "TypedefTemplateInstantiation") st = Fail.
+  Proof.
+    intros f. cbn [Nat.add]. rule "TypedefTemplateInstantiation"%string. rewrite i_and, seq_cons, i_and, seq_cons, i_and, seq_cons.
+    rewrite (kwb _ "typedef" eq_refl). reflexivity.
+  Qed.
+  Lemma fn_b : forall f, interp g (26 + f) (GRef "GlobalFunction") st = Fail.
+  Proof.
+    intros f. cbn [Nat.add]. rewrite (i_ref _ _ "GlobalFunction" FN_BODY lookup_GlobalFunction). unfold FN_BODY.
+    rewrite i_and, seq_cons, i_and, seq_cons, i_and, seq_cons, i_and, seq_cons, i_and, seq_cons, i_and, seq_cons.
+    pose proof (template_opt_b (12 + f)) as T. cbn [Nat.add] in T. rewrite T. clear T. cbn [app]. rewrite seq_cons, i_name.
+    rewrite (i_ref _ _ "ReturnType" RT_BODY lookup_ReturnType). unfold RT_BODY. rewrite i_or. cbn [alt_longest].
+    unfold PAIR_AND. rewrite i_and, seq_cons, i_and, seq_cons, i_and, seq_cons, i_and, seq_cons, i_and, seq_cons, i_and, seq_cons, i_sup, i_opt, i_term.
+    pose proof (lit_fail p (chars_of "std::") "}"%char [] X eq_refl eq_refl) as L. change (string_of (chars_of "std::")) with "std::"%string in L.
+    change (run_term (TLit "std::") st = Fail) in L. rewrite L. clear L. rewrite seq_cons, i_sup. rewrite (kwb _ "pair" eq_refl).
+    rewrite i_name. pose proof (ty_fails_at_rbrace (3 + f) p X) as E. cbn [Nat.add] in E.
+    change (interp g (S (S (S (S (S (S (S (S (S (S (S (S (S (S (S f))))))))))))))) TY st = Fail) in E. rewrite E. reflexivity.
+  Qed.
+  Lemma enum_b : forall f, interp g (27 + f) (GRef "Enum") st = Fail.
+  Proof.
+    intros f. cbn [Nat.add]. rule "Enum"%string.
+    rewrite i_and, seq_cons, i_and, seq_cons, i_and, seq_cons, i_and, seq_cons, i_and, seq_cons, i_or.
+    cbn [alt_longest]. rewrite i_or. cbn [alt_longest].
+    rewrite (kwb _ "enum" eq_refl), (kwb _ "enum class" eq_refl), (kwb _ "enum struct" eq_refl). reflexivity.
+  Qed.
+  Lemma var_b : forall f, interp g (28 + f) (GRef "Variable") st = Fail.
+  Proof.
+    intros f. cbn [Nat.add]. rule "Variable"%string. rewrite i_and, seq_cons, i_and, seq_cons, i_and, seq_cons, i_name.
+    pose proof (ty_fails_at_rbrace (11 + f) p X) as E. cbn [Nat.add] in E. unfold TY in E.
+    match type of E with interp g ?F ?e _ = Fail => change (interp g F e st = Fail) in E end. rewrite E. reflexivity.
+  Qed.
+  Lemma ns_b : forall f, interp g (29 + f) (GRef "Namespace") st = Fail.
+  Proof.
+    intros f. cbn [Nat.add]. rule "Namespace"%string. rewrite i_and, seq_cons, i_and, seq_cons, i_and, seq_cons, i_and, seq_cons.
+    rewrite (kwb _ "namespace" eq_refl). reflexivity.
+  Qed.
+
+  Lemma rbrace_fails : forall f, interp g (30 + f) OR7 st = Fail.
+  Proof.
+    intros f.
+    assert (E1 : interp g (24 + f) OR1 st = Fail) by (unfold OR1; change (24 + f) with (S (23 + f)); rewrite or2_r; [apply include_b | apply fwd_b]).
+    assert (E2 : interp g (25 + f) OR2 st = Fail) by (unfold OR2; change (25 + f) with (S (24 + f)); rewrite or2_r; [apply class_b | exact E1]).
+    assert (E3 : interp g (26 + f) OR3 st = Fail) by (unfold OR3; change (26 + f) with (S (25 + f)); rewrite or2_r; [apply typedef_b | exact E2]).
+    assert (E4 : interp g (27 + f) OR4 st = Fail) by (unfold OR4; change (27 + f) with (S (26 + f)); rewrite or2_r; [apply fn_b | exact E3]).
+    assert (E5 : interp g (28 + f) OR5 st = Fail) by (unfold OR5; change (28 + f) with (S (27 + f)); rewrite or2_r; [apply enum_b | exact E4]).
+    assert (E6 : interp g (29 + f) OR6 st = Fail) by (unfold OR6; change (29 + f) with (S (28 + f)); rewrite or2_r; [apply var_b | exact E5]).
+    unfold OR7. change (30 + f) with (S (29 + f)). rewrite or2_r; [apply ns_b | exact E6].
+  Qed.
+End AtBrace.
+
+Definition stops (R : chars) : Prop := forall p f, 30 <= f -> interp g f OR7 {| pk := p; rest := R |} = Fail.
+
 Lemma end_fails : forall p f, 30 <= f -> interp g f OR7 {| pk := p; rest := [] |} = Fail.
 Proof.
   intros p f Hf. assert (E : interp g 30 OR7 {| pk := p; rest := [] |} = Fail) by (destruct p; vm_compute; reflexivity).
   unfold interp in *. rewrite (fuel_mono run_term g 30 OR7 _ ltac:(rewrite E; discriminate) f Hf). exact E.
 Qed.
+Lemma end_stops : stops []. Proof. exact end_fails. Qed.
+Lemma rbrace_stops : forall X, stops (sp rbrace X).
+Proof. intros X p f Hf. replace f with (30 + (f - 30)) by lia. apply rbrace_fails. Qed.
 
-Definition module_toks (fns : list fn) : list chars := flat_map toks_of fns.
+(* ---- one namespace: `namespace name { content }` where the content is a run of declarations ---- *)
 Definition items_of (vs : list value) : list item := map (fun v => ([], v)) vs.
+Definition ns_value (nm : string) (vs : list value) : value :=
+  VNode "Namespace" ([([], VStr "namespace"); (["name"%string], VStr nm)] ++ map (add_name "content") (items_of vs)).
+Definition ns_type : ty := TPlain (Typename [] (NStr "namespace") []) false PNone false.
 
-Lemma star_fns : forall fns, Forall wf_fn fns -> forall F, 30 <= F -> (forall x, In x fns -> fuel_fn x + 25 <= F) ->
-  forall k acc p, length fns < k ->
-  exists vs p', star (interp g F) k OR7 acc {| pk := p; rest := render (module_toks fns) [] |}
-                = Match (acc ++ items_of vs) {| pk := p'; rest := [] |}
-                /\ mapM (b_decl depth_fuel) vs = Ok (map decl_of fns).
+Lemma ns_parses : parses 13 [knamespace] (ty_value ns_type).
 Proof.
-  induction fns as [|x fns IH]; intros Hwf F HF Hfuel k acc p Hk.
-  - destruct k as [|k]; [cbn in Hk; lia|]. exists [], p. cbn [module_toks flat_map render fold_right items_of map mapM].
-    rewrite star_S, (end_fails p F HF), app_nil_r. split; reflexivity.
-  - destruct k as [|k]; [cbn in Hk; lia|]. inversion Hwf as [|? ? Hx Hrest]; subst.
-    cbn [module_toks flat_map]. rewrite render_app. fold (module_toks fns).
-    destruct (content_step x Hx p (render (module_toks fns) []) F (Hfuel x (or_introl eq_refl))) as [v [p1 [E B]]].
-    rewrite star_S, E.
-    destruct (IH Hrest F HF (fun y Hy => Hfuel y (or_intror Hy)) k (acc ++ [([], v)]) p1 ltac:(cbn [length] in Hk; lia))
-      as [vs [p2 [E2 B2]]].
-    exists (v :: vs), p2. rewrite E2. split.
-    + rewrite <- app_assoc. reflexivity.
-    + cbn [mapM map]. rewrite B. cbn [bind]. rewrite B2. reflexivity.
+  apply (ty_parses 1 ns_type); [cbn; lia|]. cbn [wf_ty ns_type]. split; [reflexivity|]. split.
+  - repeat constructor.
+  - vm_compute. intuition discriminate.
+Qed.
+Lemma ns_word : word knamespace. Proof. split; [discriminate | reflexivity]. Qed.
+Lemma ns_not_other : ~ In knamespace other_keywords. Proof. vm_compute. intuition discriminate. Qed.
+
+Lemma ns_step : forall (Q : list value -> Prop) nm body R y, is_ident (chars_of nm) = true -> 12 <= y ->
+  (forall p, exists vs p', star (interp g (19 + y)) (19 + y) OR7 [] {| pk := p; rest := render body (sp rbrace R) |}
+                           = Match (items_of vs) {| pk := p'; rest := sp rbrace R |} /\ Q vs) ->
+  forall p, exists vs p', interp g (25 + y) OR7 {| pk := p; rest := render ([knamespace; chars_of nm; lbrace] ++ body ++ [rbrace]) R |}
+                          = Match [([], ns_value nm vs)] {| pk := p'; rest := R |} /\ Q vs.
+Proof.
+  intros Q nm body R y Hn Hy Hstar p.
+  set (INNER := render body (sp rbrace R)).
+  assert (Etext : render ([knamespace; chars_of nm; lbrace] ++ body ++ [rbrace]) R = sp knamespace (sp (chars_of nm) (sp lbrace INNER))).
+  { unfold INNER. cbn [app render fold_right]. fold (render (body ++ [rbrace]) R). rewrite render_app. reflexivity. }
+  rewrite Etext. set (AFTER := sp (chars_of nm) (sp lbrace INNER)).
+  assert (Bd : boundary AFTER) by (right; eexists; reflexivity).
+  change (25 + y) with (Sn 7 (18 + y)). cbn [Sn Nat.add].
+  (* the namespace rule matches *)
+  assert (M : exists vs p', interp g (Sn 6 (18 + y)) (GRef "Namespace") {| pk := p; rest := sp knamespace AFTER |}
+                            = Match [([], ns_value nm vs)] {| pk := p'; rest := R |} /\ Q vs).
+  { cbn [Sn Nat.add]. rule "Namespace"%string. rewrite i_and, seq_cons, i_and, seq_cons, i_and, seq_cons, i_and, seq_cons, i_term.
+    destruct (kw_self p "n"%char (chars_of "amespace") AFTER eq_refl Bd) as [p1 E1].
+    change (string_of ("n"%char :: chars_of "amespace")) with "namespace"%string in E1.
+    change (sp ("n"%char :: chars_of "amespace") AFTER) with (sp knamespace AFTER) in E1. rewrite E1. cbn [app].
+    rewrite seq_cons, i_name. unfold AFTER.
+    assert (Bl : boundary (sp lbrace INNER)) by (right; eexists; reflexivity).
+    destruct (IDENT_ok (Sn 16 y) p1 (chars_of nm) (sp lbrace INNER) Hn Bl) as [p2 E2]. cbn [Sn] in E2. unfold IDENT in E2. rewrite E2.
+    cbn [map add_name fst snd app]. rewrite seq_nil. cbn [app]. rewrite seq_cons, i_sup.
+    destruct (lit1_at (Sn 18 y) p2 "{"%char INNER eq_refl) as [p3 E3]. cbn [Sn] in E3. change (sp ["{"%char] INNER) with (sp lbrace INNER) in E3.
+    rewrite E3, seq_nil. cbn [app]. rewrite seq_cons, i_name, i_star.
+    change (GOr [GOr [GOr [GOr [GOr [GOr [GOr [GRef "ForwardDeclaration"; GRef "Include"]; GRef "Class"];
+      GRef "TypedefTemplateInstantiation"]; GRef "GlobalFunction"]; GRef "Enum"]; GRef "Variable"]; GRef "Namespace"]) with OR7.
+    destruct (Hstar p3) as [vs [p4 [E4 HQ]]]. cbn [Nat.add] in E4. unfold INNER. rewrite E4. rewrite seq_nil. cbn [app]. rewrite seq_cons, i_sup.
+    destruct (lit1_at (Sn 20 y) p4 "}"%char R eq_refl) as [p5 E5]. cbn [Sn] in E5. change (sp ["}"%char] R) with (sp rbrace R) in E5.
+    rewrite E5, seq_nil. cbn [app]. rewrite string_chars, app_nil_r. exists vs, p5. split; [reflexivity | exact HQ]. }
+  destruct M as [vs [p' [M HQ]]]. exists vs, p'. split; [|exact HQ]. cbn [Sn Nat.add] in M.
+  pose proof ns_word as Hw. pose proof ns_not_other as Hk.
+  unfold OR7. rewrite or2_r; [exact M|].
+  unfold OR6. rewrite or2_r.
+  { unfold AFTER. apply (variable_fails 13 [knamespace] (ty_value ns_type) (chars_of nm) "{"%char [] INNER ns_parses Hn eq_refl eq_refl eq_refl
+                        (15 + y) p). lia. }
+  unfold OR5. rewrite or2_r; [apply (enum_fails p knamespace AFTER Hw Bd Hk (12 + y))|].
+  unfold OR4. rewrite or2_r.
+  { unfold AFTER. apply (function_fails 13 [knamespace] (ty_value ns_type) (chars_of nm) "{"%char [] INNER ns_parses).
+    - exists knamespace, []. split; [reflexivity|]. split; [exact Hw|]. split; discriminate.
+    - exact Hn.
+    - reflexivity.
+    - reflexivity.
+    - lia. }
+  unfold OR3. rewrite or2_r; [apply (typedef_fails p knamespace AFTER Hw Bd Hk (14 + y))|].
+  unfold OR2. rewrite or2_r; [apply (class_fails p knamespace AFTER Hw Bd Hk (1 + y))|].
+  unfold OR1. rewrite or2_r; [apply (include_fails p knamespace AFTER Hw Bd Hk (12 + y))|].
+  apply (fwd_fails p knamespace AFTER Hw Bd Hk (9 + y)).
 Qed.
 
-(* ---- Module = ModuleContent StringEnd ---- *)
-Lemma module_parses : forall fns, Forall wf_fn fns -> forall F, 30 <= F -> (forall x, In x fns -> fuel_fn x + 25 <= F) ->
-  length fns < F ->
-  exists vs p', interp g (5 + F) (GRef "Module") {| pk := false; rest := render (module_toks fns) [] |}
-                = Match [([], VNode "Module" [([], VNode "ModuleContent" (items_of vs))])] {| pk := p'; rest := [] |}
-                /\ mapM (b_decl depth_fuel) vs = Ok (map decl_of fns).
+(* ---- declaration trees: functions inside namespaces nested to any depth ---- *)
+Inductive item : Type :=
+| IFn (x : fn)
+| INs (name : string) (body : list item).
+
+Fixpoint itoks (i : item) : list chars :=
+  match i with
+  | IFn x => toks_of x
+  | INs n b => [knamespace; chars_of n; lbrace] ++ flat_map itoks b ++ [rbrace]
+  end.
+Definition items_toks (l : list item) : list chars := flat_map itoks l.
+Fixpoint idecl (i : item) : decl :=
+  match i with IFn x => decl_of x | INs n b => DNamespace n (map idecl b) end.
+Fixpoint idepth (i : item) : nat :=
+  match i with IFn _ => 0 | INs _ b => S (fold_right (fun x acc => Nat.max (idepth x) acc) 0 b) end.
+Fixpoint wf_item (i : item) : Prop :=
+  match i with
+  | IFn x => wf_fn x
+  | INs n b => is_ident (chars_of n) = true /\ (fix all (l : list item) : Prop := match l with [] => True | x :: r => wf_item x /\ all r end) b
+  end.
+Fixpoint need (i : item) : nat :=
+  match i with
+  | IFn x => fuel_fn x + 25
+  | INs _ b => 37 + length b + fold_right (fun x acc => need x + acc) 0 b
+  end.
+Definition needs (l : list item) : nat := 31 + length l + fold_right (fun x acc => need x + acc) 0 l.
+
+Lemma wf_items_all : forall b, (fix all (l : list item) : Prop := match l with [] => True | x :: r => wf_item x /\ all r end) b ->
+  forall x, In x b -> wf_item x.
+Proof. induction b as [|y r IH]; intros H x Hx; [destruct Hx|]. destruct H as [H1 H2]. destruct Hx as [E|Hx]; [subst; exact H1 | apply IH; assumption]. Qed.
+Lemma idepth_ge : forall (b : list item) x, In x b -> idepth x <= fold_right (fun y acc => Nat.max (idepth y) acc) 0 b.
+Proof. induction b as [|y r IH]; intros x H; [destruct H|]. cbn [fold_right]. destruct H as [E|H]; [subst; lia | specialize (IH x H); lia]. Qed.
+
+Lemma named_content : forall vs, named "content" (map (add_name "content") (items_of vs)) = vs.
+Proof. induction vs as [|v r IH]; [reflexivity|]. unfold named, items_of in *. cbn. f_equal. exact IH. Qed.
+
+Lemma b_decl_ns : forall k nm vs ds, mapM (b_decl k) vs = Ok ds -> b_decl (S k) (ns_value nm vs) = Ok (DNamespace nm ds).
 Proof.
-  intros fns Hwf F HF Hfuel Hlen. cbn [Nat.add]. rule "Module"%string. rewrite i_and, seq_cons. rule "ModuleContent"%string.
-  rewrite i_star.
-  destruct (star_fns fns Hwf (S F) ltac:(lia) (fun x Hx => Nat.le_trans _ _ _ (Hfuel x Hx) (Nat.le_succ_diag_r F)) (S F) [] false ltac:(lia))
-    as [vs [p' [E B]]].
-  exists vs, p'. split; [|exact B]. change (GOr [GOr [GOr [GOr [GOr [GOr [GOr [GRef "ForwardDeclaration"; GRef "Include"]; GRef "Class"];
-    GRef "TypedefTemplateInstantiation"]; GRef "GlobalFunction"]; GRef "Enum"]; GRef "Variable"]; GRef "Namespace"]) with OR7.
-  rewrite E. cbn [app]. rewrite seq_cons, i_term. cbn [run_term]. destruct p'; reflexivity.
+  intros k nm vs ds H. unfold ns_value. cbn [b_decl].
+  repeat match goal with |- context [String.eqb ?a ?b] =>
+    let v := eval vm_compute in (String.eqb a b) in change (String.eqb a b) with v end.
+  cbv iota. unfold name_of, first_named. rewrite !named_app, named_content.
+  change (named "name" [([], VStr "namespace"); (["name"%string], VStr nm)]) with [VStr nm].
+  change (named "content" [([], VStr "namespace"); (["name"%string], VStr nm)]) with (@nil value).
+  cbn [app hd_error bind]. rewrite H. reflexivity.
+Qed.
+
+Theorem items_star : forall n items, (forall i, In i items -> idepth i < n /\ wf_item i) ->
+  forall F, needs items <= F -> forall R, stops R -> forall k acc p, length items < k ->
+  exists vs p', star (interp g F) k OR7 acc {| pk := p; rest := render (items_toks items) R |}
+                = Match (acc ++ items_of vs) {| pk := p'; rest := R |}
+                /\ forall bf, n <= bf -> mapM (b_decl bf) vs = Ok (map idecl items).
+Proof.
+  induction n as [|n IHn]; intros items.
+  - destruct items as [|i items]; intros H F HF R HR k acc p Hk.
+    + destruct k as [|k]; [cbn in Hk; lia|]. exists [], p. cbn [items_toks flat_map render fold_right items_of map mapM].
+      unfold needs in HF. rewrite star_S, (HR p F ltac:(cbn [length] in HF; lia)), app_nil_r. split; [reflexivity | intros; reflexivity].
+    + destruct (H i (or_introl eq_refl)) as [X _]. lia.
+  - induction items as [|i items IHi]; intros H F HF R HR k acc p Hk.
+    + destruct k as [|k]; [cbn in Hk; lia|]. exists [], p. cbn [items_toks flat_map render fold_right items_of map mapM].
+      unfold needs in HF. rewrite star_S, (HR p F ltac:(cbn [length] in HF; lia)), app_nil_r. split; [reflexivity | intros; reflexivity].
+    + destruct k as [|k]; [cbn in Hk; lia|].
+      destruct (H i (or_introl eq_refl)) as [Hdi Hwi].
+      assert (Hrest : forall j, In j items -> idepth j < S n /\ wf_item j) by (intros j Hj; apply H; right; exact Hj).
+      unfold needs in HF. cbn [length fold_right] in HF.
+      assert (HFr : needs items <= F) by (unfold needs; lia).
+      cbn [items_toks flat_map]. fold (items_toks items). rewrite render_app.
+      set (REST := render (items_toks items) R) in *.
+      assert (Step : exists v p1, interp g F OR7 {| pk := p; rest := render (itoks i) REST |} = Match [([], v)] {| pk := p1; rest := REST |}
+                                  /\ forall bf, S n <= bf -> b_decl bf v = Ok (idecl i)).
+      { destruct i as [x|nm b].
+        - cbn [wf_item itoks idecl need] in *. destruct (content_step x Hwi p REST F ltac:(lia)) as [v [p1 [E B]]].
+          exists v, p1. split; [exact E|]. intros bf Hbf. destruct bf as [|bf]; [lia|]. apply B.
+        - cbn [wf_item itoks idecl need idepth] in *. destruct Hwi as [Hnm Hall].
+          assert (Hb : forall j, In j b -> idepth j < n /\ wf_item j).
+          { intros j Hj. split; [pose proof (idepth_ge b j Hj); lia | apply (wf_items_all b Hall j Hj)]. }
+          assert (Y : exists y, F = 25 + y /\ 12 <= y /\ needs b <= 19 + y) by (exists (F - 25); unfold needs; lia).
+          destruct Y as [y [EF [Hy Hnb]]]. subst F.
+          destruct (ns_step (fun vs => forall bf, n <= bf -> mapM (b_decl bf) vs = Ok (map idecl b)) nm (flat_map itoks b) REST y Hnm Hy) with (p := p)
+            as [vs [p1 [E Q]]].
+          { intros q. fold (items_toks b).
+            destruct (IHn b Hb (19 + y) Hnb (sp rbrace REST) (rbrace_stops REST) (19 + y) [] q ltac:(unfold needs in Hnb; lia)) as [vs [q' [E Q]]].
+            exists vs, q'. split; [exact E | exact Q]. }
+          exists (ns_value nm vs), p1. split; [exact E|]. intros bf Hbf. destruct bf as [|bf]; [lia|].
+          apply b_decl_ns. apply Q. lia. }
+      destruct Step as [v [p1 [E B]]]. rewrite star_S, E.
+      destruct (IHi Hrest F HFr R HR k (acc ++ [([], v)]) p1 ltac:(cbn [length] in Hk; lia)) as [vs [p2 [E2 B2]]].
+      exists (v :: vs), p2. fold REST in E2. rewrite E2. split.
+      * rewrite <- app_assoc. reflexivity.
+      * intros bf Hbf. cbn [mapM map]. rewrite (B bf Hbf). cbn [bind]. rewrite (B2 bf Hbf). reflexivity.
 Qed.
 
 (* ---- the printed text contains no tab: parseString's expandtabs leaves it alone ---- *)
@@ -347,7 +606,7 @@ Proof.
   - rewrite app_length. unfold one_arg_toks at 1. rewrite app_length. cbn [length]. lia.
 Qed.
 
-Lemma fn_facts : forall x, wf_fn x -> Forall tok_ok (toks_of x) /\ fuel_fn x <= 50 + 13 * length (toks_of x) /\ 1 <= length (toks_of x).
+Lemma fn_facts : forall x, wf_fn x -> Forall tok_ok (toks_of x) /\ fuel_fn x <= 50 + 13 * length (toks_of x) /\ 4 <= length (toks_of x).
 Proof.
   intros [[t name] args] [Hw [Hd [_ [Hn Ha]]]]. cbn [toks_of fuel_fn]. unfold fn_toks, fn_fuel.
   destruct (ty_facts _ _ Hd Hw) as [T1 T2]. destruct (args_facts args Ha) as [A1 A2]. split; [|split].
@@ -357,16 +616,40 @@ Proof.
   - rewrite !app_length. cbn [length]. lia.
 Qed.
 
-Lemma module_facts : forall fns, Forall wf_fn fns ->
-  Forall tok_ok (module_toks fns) /\ length fns <= length (module_toks fns) /\
-  (forall x, In x fns -> fuel_fn x <= 50 + 13 * length (module_toks fns)).
+
+Lemma flat_tok : forall (b : list item), (forall j, In j b -> Forall tok_ok (itoks j)) -> Forall tok_ok (flat_map itoks b).
 Proof.
-  induction fns as [|x fns IH]; intros H; [split; [constructor | split; [cbn; lia | intros x []]]|].
-  inversion H as [|? ? Hx Hrest]; subst. destruct (IH Hrest) as [I1 [I2 I3]]. destruct (fn_facts x Hx) as [F1 [F2 F3]].
-  cbn [module_toks flat_map]. fold (module_toks fns). split; [|split].
-  - apply Forall_app. split; assumption.
-  - rewrite app_length. cbn [length]. lia.
-  - intros y [E|Hy]; rewrite app_length; [subst y; lia | specialize (I3 y Hy); lia].
+  induction b as [|j b IH]; intros H; [constructor|]. cbn [flat_map]. apply Forall_app. split; [apply H; left; reflexivity|].
+  apply IH. intros k Hk. apply H. right. exact Hk.
+Qed.
+Lemma flat_need : forall (b : list item), (forall j, In j b -> need j + 1 <= 32 * length (itoks j)) ->
+  length b + fold_right (fun x acc => need x + acc) 0 b <= 32 * length (flat_map itoks b).
+Proof.
+  induction b as [|j b IH]; intros H; [cbn; lia|]. cbn [flat_map fold_right length]. rewrite app_length.
+  specialize (IH (fun k Hk => H k (or_intror Hk))). specialize (H j (or_introl eq_refl)). lia.
+Qed.
+
+Lemma item_facts : forall n i, idepth i < n -> wf_item i -> Forall tok_ok (itoks i) /\ need i + 1 <= 32 * length (itoks i).
+Proof.
+  induction n as [|n IH]; intros i Hd Hw; [lia|]. destruct i as [x|nm b].
+  - cbn [wf_item itoks need] in *. destruct (fn_facts x Hw) as [F1 [F2 F3]]. split; [exact F1 | lia].
+  - cbn [wf_item itoks need idepth] in *. destruct Hw as [Hnm Hall].
+    assert (Hb : forall j, In j b -> Forall tok_ok (itoks j) /\ need j + 1 <= 32 * length (itoks j)).
+    { intros j Hj. apply IH; [pose proof (idepth_ge b j Hj); lia | apply (wf_items_all b Hall j Hj)]. }
+    split.
+    + apply Forall_app. split; [repeat constructor; try (vm_compute; discriminate); apply ident_tok; exact Hnm|].
+      apply Forall_app. split; [apply flat_tok; intros j Hj; apply Hb; exact Hj | tok_lit].
+    + pose proof (flat_need b (fun j Hj => proj2 (Hb j Hj))) as FN. rewrite !app_length. cbn [length]. lia.
+Qed.
+
+Lemma items_facts : forall n items, (forall i, In i items -> idepth i < n /\ wf_item i) ->
+  Forall tok_ok (items_toks items) /\ needs items <= 31 + 32 * length (items_toks items).
+Proof.
+  intros n items H.
+  assert (Hb : forall j, In j items -> Forall tok_ok (itoks j) /\ need j + 1 <= 32 * length (itoks j)).
+  { intros j Hj. destruct (H j Hj) as [Hd Hw]. apply (item_facts n j Hd Hw). }
+  split; [apply flat_tok; intros j Hj; apply Hb; exact Hj|].
+  pose proof (flat_need items (fun j Hj => proj2 (Hb j Hj))) as FN. unfold needs, items_toks. lia.
 Qed.
 
 Lemma string_of_length : forall l, String.length (string_of l) = length l.
@@ -374,19 +657,52 @@ Proof. induction l as [|c l IH]; [reflexivity|]. cbn. rewrite IH. reflexivity. Q
 Lemma snd_items : forall vs, map snd (items_of vs) = vs.
 Proof. induction vs as [|v vs IH]; [reflexivity|]. unfold items_of in *. cbn [map snd]. f_equal. exact IH. Qed.
 
-(* the text of a file of function declarations *)
+(* ---- Module = ModuleContent StringEnd ---- *)
+Lemma module_parses : forall items, (forall i, In i items -> idepth i < depth_fuel /\ wf_item i) -> forall F, needs items <= F ->
+  exists vs p', interp g (5 + F) (GRef "Module") {| pk := false; rest := render (items_toks items) [] |}
+                = Match [([], VNode "Module" [([], VNode "ModuleContent" (items_of vs))])] {| pk := p'; rest := [] |}
+                /\ mapM (b_decl depth_fuel) vs = Ok (map idecl items).
+Proof.
+  intros items Hwf F HF. cbn [Nat.add]. rule "Module"%string. rewrite i_and, seq_cons. rule "ModuleContent"%string.
+  rewrite i_star.
+  destruct (items_star depth_fuel items Hwf (S F) ltac:(lia) [] end_stops (S F) [] false ltac:(unfold needs in HF; lia))
+    as [vs [p' [E B]]].
+  exists vs, p'. split; [|apply B; lia]. change (GOr [GOr [GOr [GOr [GOr [GOr [GOr [GRef "ForwardDeclaration"; GRef "Include"]; GRef "Class"];
+    GRef "TypedefTemplateInstantiation"]; GRef "GlobalFunction"]; GRef "Enum"]; GRef "Variable"]; GRef "Namespace"]) with OR7.
+  rewrite E. cbn [app]. rewrite seq_cons, i_term. cbn [run_term]. destruct p'; reflexivity.
+Qed.
+
+(* the text of a file: one blank before every token *)
+Definition print_items (items : list item) : string := string_of (render (items_toks items) []).
+
+Theorem items_roundtrip : forall items, (forall i, In i items -> idepth i < depth_fuel /\ wf_item i) ->
+  parse_module g (print_items items) = Ok (map idecl items).
+Proof.
+  intros items H. destruct (items_facts depth_fuel items H) as [M1 M2].
+  pose proof (render_length (items_toks items) []) as RL. cbn [length] in RL.
+  unfold parse_module, parse_text, print_items. rewrite chars_string. unfold expandtabs.
+  rewrite expandtabs_notab by (apply render_notab; [exact M1 | constructor]).
+  set (L := length (render (items_toks items) [])) in *.
+  assert (EF : text_fuel (string_of (render (items_toks items) [])) = 5 + (40 * L + 95)).
+  { unfold text_fuel. rewrite Nat.tail_add_spec, string_of_length. fold L. lia. }
+  rewrite EF.
+  destruct (module_parses items H (40 * L + 95) ltac:(lia)) as [vs [p' [E B]]].
+  rewrite E. cbv beta iota. unfold b_module. rewrite snd_items. exact B.
+Qed.
+
+(* files of functions only *)
+Definition module_toks (fns : list fn) : list chars := flat_map toks_of fns.
 Definition print_module (fns : list fn) : string := string_of (render (module_toks fns) []).
+Lemma toks_IFn : forall fns, items_toks (map IFn fns) = module_toks fns.
+Proof. induction fns as [|x fns IH]; [reflexivity|]. unfold items_toks, module_toks in *. cbn [map flat_map itoks]. rewrite IH. reflexivity. Qed.
+Lemma decls_IFn : forall fns, map idecl (map IFn fns) = map decl_of fns.
+Proof. induction fns as [|x fns IH]; [reflexivity|]. cbn [map idecl]. rewrite IH. reflexivity. Qed.
 
 Theorem module_roundtrip : forall fns, Forall wf_fn fns -> parse_module g (print_module fns) = Ok (map decl_of fns).
 Proof.
-  intros fns H. destruct (module_facts fns H) as [M1 [M2 M3]].
-  pose proof (render_length (module_toks fns) []) as RL. cbn [length] in RL.
-  unfold parse_module, parse_text, print_module. rewrite chars_string. unfold expandtabs.
-  rewrite expandtabs_notab by (apply render_notab; [exact M1 | constructor]).
-  set (L := length (render (module_toks fns) [])) in *.
-  assert (EF : text_fuel (string_of (render (module_toks fns) [])) = 5 + (16 * L + 95)).
-  { unfold text_fuel. rewrite string_of_length. fold L. lia. }
-  rewrite EF.
-  destruct (module_parses fns H (16 * L + 95) ltac:(lia) (fun x Hx => ltac:(specialize (M3 x Hx); lia)) ltac:(lia)) as [vs [p' [E B]]].
-  rewrite E. cbv beta iota. unfold b_module. rewrite snd_items. exact B.
+  intros fns H.
+  assert (Hx : forall i, In i (map IFn fns) -> idepth i < depth_fuel /\ wf_item i).
+  { intros i Hi. apply in_map_iff in Hi. destruct Hi as [x [E Hx]]. subst i. split; [cbn; unfold depth_fuel; lia|].
+    cbn [wf_item]. rewrite Forall_forall in H. apply H. exact Hx. }
+  pose proof (items_roundtrip (map IFn fns) Hx) as T. unfold print_items in T. rewrite toks_IFn, decls_IFn in T. exact T.
 Qed.
